@@ -40,12 +40,13 @@ CLAUSE_OF = {
     "data": "C13: identical payload bytes; sf_get_chunk_data copies at most the caller's datalen bytes",
     "ret": "C13: get_chunk_size / get_chunk_data return 0", "own-last": "C13: by-id iteration finds the last entry of the table",
     "strings": "C13: other metadata is not disturbed",
+    "all-last": "C13: a full iteration visits every chunk of the file once, the container's audio chunk (the last table entry) included",
     "step-iter": "C13: sf_get_chunk_iterator finds a chunk iff the complete iteration visits one",
     "step-next": "C13: sf_next_chunk_iterator walks the listing and returns NULL after the last",
     "step-data": "C13: the chunk at the iterator is the one the complete iteration visited there; min (datalen, size) bytes copied",
 }
 
-NEW_PREFIXES = ("absent-", "twin-", "order-", "step-")      # clauses the Python predicates do not have
+NEW_PREFIXES = ("absent-", "twin-", "order-", "step-", "all-")      # clauses the Python predicates do not have
 
 
 def clause_text(tag):
